@@ -335,13 +335,73 @@ func (f *c11Forced) closeVsTimer(trial int, timerFirst, withGuard bool) {
 	}
 }
 
+// drainedStall: a stream is read to EOF (plus the Read that reports io.EOF) and
+// then neither read nor closed. It must be force-closed after its idle timeout
+// and a reap must then go through without anybody calling Close.
+func (f *c11Forced) drainedStall(trial int) {
+	const T = 50 * time.Millisecond
+	b, root := c11NewStore(f.t, 1<<30, T)
+	defer os.RemoveAll(root)
+	defer b.Close()
+	if _, err := b.Full(9, 1); err != nil {
+		f.t.Fatalf("harness: %v", err)
+	}
+	b.Exec(`INSERT INTO t(a) VALUES('two')`)
+	var inc vsnap.Snap
+	var err error
+	if err = b.StageWAL(); err == nil {
+		inc, err = b.Incremental(10, 1)
+	}
+	if err != nil {
+		f.t.Fatalf("harness: %v", err)
+	}
+	_, rc, err := b.Store.Open(inc.ID)
+	if err != nil {
+		f.fail("C11/open-failed", "Open failed: %v", err)
+		return
+	}
+	defer rc.Close()
+	buf := make([]byte, 1+trial*997)
+	var rerr error
+	for rerr == nil {
+		_, rerr = rc.Read(buf)
+	}
+	if rerr != io.EOF {
+		f.rec.Label("drained-stall:read-ended-with-" + fmt.Sprint(rerr))
+		return // descheduled past the timeout while reading: not the scenario
+	}
+	rc.Read(buf) // a consumer may ask once more after EOF
+	deadline := time.Now().Add(c11Generous)
+	for {
+		if _, err := rc.Read(nil); err == snapshot.ErrSnapshotReaderTimeout {
+			break
+		}
+		if time.Now().After(deadline) {
+			f.fail("C11/stalled-stream-not-force-closed", "a stream read to EOF and then left alone (not closed) was not force-closed within %v (idle timeout %v)", c11Generous, T)
+			return
+		}
+		time.Sleep(5 * time.Millisecond)
+	}
+	for {
+		_, _, err := b.Store.Reap()
+		if err == nil {
+			return
+		}
+		if !isConflict(err) || time.Now().After(deadline) {
+			f.fail("C11/hold-not-released", "Reap refused after the drained, unclosed stream timed out: %v", err)
+			return
+		}
+		time.Sleep(5 * time.Millisecond)
+	}
+}
+
 func TestVerif_C11_Forced(t *testing.T) {
 	if !c11Supervise(t, "forced") {
 		return
 	}
 	vsnap.Quiet()
 	rec := vstat.New(t, "C11", "forced",
-		"forced interleavings in a child process: (queued-reaper) write lock held, snapshot created so that the auto-reaper queues behind the writer, writer released and a stream opened right behind it; if Open wins nothing below the store may change for 800 ms and the stream restores to the recorded content, then the reaper proceeds. (close-vs-timer) a stream built with the public NewLockingStreamer over a reader with a slow Close: timer force-close in flight then Close, or Close in flight then timer; with a healthy second stream open (its hold must survive: Reap refused, bytes intact) and without; afterwards Reap must succeed. one case = one trial; non-trivial = Open won the race / the two closers overlapped; distinct by scenario+trial+seed")
+		"forced interleavings in a child process: (queued-reaper) write lock held, snapshot created so that the auto-reaper queues behind the writer, writer released and a stream opened right behind it; if Open wins nothing below the store may change for 800 ms and the stream restores to the recorded content, then the reaper proceeds. (close-vs-timer) a stream built with the public NewLockingStreamer over a reader with a slow Close: timer force-close in flight then Close, or Close in flight then timer; with a healthy second stream open (its hold must survive: Reap refused, bytes intact) and without; afterwards Reap must succeed. (drained-stall) a stream read to EOF and then neither read nor closed must be force-closed and a reap must go through. one case = one trial; non-trivial = Open won the race / the two closers overlapped; distinct by scenario+trial+seed")
 	f := &c11Forced{t: t, rec: rec}
 	seed := vstat.Seed()
 	nA, nB := vstat.Scale(15, 60), vstat.Scale(4, 16)
@@ -363,6 +423,11 @@ func TestVerif_C11_Forced(t *testing.T) {
 				rec.Case(true, fmt.Sprintf("close-vs-timer/%v/%v/%d/%d", timerFirst, guard, seed, i))
 			}
 		}
+	}
+	for i := 0; i < vstat.Scale(4, 16) && !f.bad; i++ {
+		f.drainedStall(i)
+		rec.Case(true, fmt.Sprintf("drained-stall/%d/%d", seed, i))
+		rec.Label("drained-stall")
 	}
 	rec.Sample(fmt.Sprintf("queued-reaper: Open won %d of %d trials", won, nA))
 }
